@@ -51,7 +51,25 @@ CLAIMED["C14"] = dict(
          "no invalid/double free, windows never release data; at quiescence at most 16 blocks retained, after m4ri_fini() none.",
     note="Sampling over histories (a clean batch is evidence, not proof). The model is ~150 lines; content is compared completely every 64 steps and at the end, 6 random owners after each step.")
 
-NOT_BUILT = {p: "not claimed at this commit: the simulation engine for this property is still under construction (see DESIGN.md section 11)" for p in ["C10", "C11", "C12", "C15", "C16"]}
+CLAIMED["C10"] = dict(
+    engine="hist", level="exploration", design_ref="DESIGN.md section 3, C10",
+    technique="deterministic simulation: the same probe call replayed in several simulated worlds (seeded call-history prefix, dirty/recycling heap behind the allocation seam, junk in overwritten destinations); outcomes compared bit for bit with the fresh world; padding invariant after every call",
+    text="For each operation of the table a seeded probe call (operands from structured generators, all routes, k and cutoff drawn, cache knobs small in half of the runs) is executed in 4 (quick) / 8 (thorough) "
+         "worlds in one forked process: world 0 is what the test-suite sees (no history, zeroed heap), the others have a prefix of up to 24 other library calls, a heap that fills fresh blocks with 0xFF / 0xA5 / random words / "
+         "small indices / stale content and recycles freed blocks immediately, and junk in every destination and permutation the call overwrites. Every result matrix, permutation, scalar return and the fate of the call must equal "
+         "world 0; excess bits of every owned matrix must be zero after every call (prefix included). Two flavours: ASan+UBSan and plain -O2 with the recycling allocator; four build variants.",
+    note="Differential against the same tree: a wrong value computed identically in all worlds is silent (C01-C08 are not claimed). Sampling over probe calls and worlds.")
+
+CLAIMED["C11"] = dict(
+    engine="hist", level="exploration", design_ref="DESIGN.md section 3, C11",
+    technique="deterministic simulation with fault injection on the allocation seam: ledger of every library allocation across simulated call histories (temporaries released, frees valid), forked ill-dimensioned calls with operand snapshots compared at the simulated abort, all workloads under ASan/UBSan",
+    text="Decided on the seams: (1) after every world of the hist engine - prefix calls, probe call, everything returned freed, block cache cleaned - the set of live library allocations must equal the set before, "
+         "and in builds with the header cache a black-box probe checks that the static pool has all 64 slots free; frees of unknown or already freed pointers are recorded by the ledger; "
+         "(2) for each of the 21 checked public wrappers, calls with one dimension perturbed are executed in a forked child: the only admissible fate is m4ri_die with a diagnostic and every operand bit unchanged at the moment of death; "
+         "(3) the same workloads run with 16-byte aligned plain malloc (no-SSE2 variant) and 64-byte aligned blocks. The input-universal clause (no out-of-bounds/UB for every valid input) is only sampled by these workloads under ASan+UBSan.",
+    note="Sanitizers are trusted to report what they can see; UB they cannot see and shapes the generators never reach are outside. Leaks of libpng/zlib are outside the ledger.")
+
+NOT_BUILT = {p: "not claimed at this commit: the simulation engine for this property is still under construction (see DESIGN.md section 11)" for p in ["C12", "C15", "C16"]}
 
 
 def main():
@@ -78,6 +96,7 @@ def main():
         engines=[
             dict(name="oom", path="sim/eng/oom.c", serves_properties=["C20"], kind_free_text="allocation-failure enumeration in forked children over the simulated heap"),
             dict(name="alloc", path="sim/eng/alloc.c", serves_properties=["C14"], kind_free_text="allocation histories against a reference model over the simulated (recycling, dirtying) heap"),
+            dict(name="hist", path="sim/eng/hist.c", serves_properties=["C10", "C11"], kind_free_text="same call in several simulated worlds (history, heap content, destination junk); allocator ledger; forked ill-dimensioned calls"),
             dict(name="fs", path="sim/eng/fs.c", serves_properties=["C18"], kind_free_text="simulated file system and clock under the real PNG/JCF readers and writers; fault enumeration in forked children"),
         ],
         checks=checks,
